@@ -840,12 +840,18 @@ pub(crate) fn parse_formatted_number(
         return Ok((f / 100.0, Some("#,##0%".to_string())));
     }
 
+    // a plus sign in front of a currency symbol carries no information (+$5 is $5)
+    let value = match value.strip_prefix('+') {
+        Some(rest) if currencies.iter().any(|c| rest.starts_with(c)) => rest,
+        _ => value,
+    };
+
     // check if it is a currency in currencies
     for currency in currencies {
         if let Some(p) = value.strip_prefix(&format!("-{currency}")) {
             let (f, options) = parse_number(p.trim(), decimal_separator, group_separator)?;
             if options.is_scientific {
-                return Ok((f, Some(scientific_format.to_string())));
+                return Ok((-f, Some(scientific_format.to_string())));
             }
             if options.decimal_digits > 0 {
                 return Ok((-f, Some(format!("{currency}#,##0.00"))));
@@ -947,11 +953,20 @@ fn parse_number(
         }
         position += 1;
     }
-    // Check the group separator is in multiples of three
+    // Every group separator must be followed by exactly three digits,
+    // up to the next separator or the end of the integer part
+    let mut previous: Option<usize> = None;
     for index in &group_separator_index {
-        if (chars.len() - index) % 3 != 0 {
+        let digits_after = chars.len() - index;
+        if digits_after == 0 || digits_after % 3 != 0 {
             return Err("Cannot parse number".to_string());
         }
+        if let Some(p) = previous {
+            if index - p != 3 {
+                return Err("Cannot parse number".to_string());
+            }
+        }
+        previous = Some(*index);
     }
     let mut decimal_digits = 0;
     if position < len && characters[position] == decimal_separator {
